@@ -154,6 +154,44 @@ def run(prog: Program, res: Result) -> None:
                     res.fail("C04.S2b", file=fi.file, line=c.lineno, qualname=fi.qualname, construct=c, message=f"context.markup() marks `{norm(c.args[0], 60)}` safe although it is not the content of a render buffer", what=what)
     res.floor("C04.S2b", "context.markup() calls", n_mk, 2)
 
+    # ------------------------------------------------------------------ S2c safe-marking is conditioned like the escaping
+    res.rule("C04.S2c", "where a function escapes its inputs under a condition (to_liquid_string(..., auto_escape=E)) and later marks its result safe under a condition G (if G: x = Markup(x)), G implies E: nothing is marked safe on a path where its inputs were not escaped")
+    n_s2c = 0
+
+    def _conj(e: ast.AST | None) -> set[str]:
+        if e is None:
+            return set()
+        if isinstance(e, ast.BoolOp) and isinstance(e.op, ast.And):
+            out: set[str] = set()
+            for v in e.values:
+                out |= _conj(v)
+            return out
+        return {norm(e)}
+
+    for fi in prog.all_functions():
+        escs = [c for c in ast.walk(fi.node) if isinstance(c, ast.Call) and (dotted(c.func) or "").endswith("to_liquid_string") and any(k.arg == "auto_escape" for k in c.keywords)]
+        if not escs:
+            continue
+        e_sets = [_conj(next(k.value for k in c.keywords if k.arg == "auto_escape")) for c in escs]
+        need = set.union(*e_sets) if e_sets else set()
+        if need <= {"False"}:
+            continue
+        for t in ast.walk(fi.node):
+            if not isinstance(t, ast.If):
+                continue
+            marks = [c for b in t.body for c in ast.walk(b) if isinstance(c, ast.Call) and S.qual(fi, c.func) in MARKUP and c.args and isinstance(c.args[0], ast.Name)]
+            if not marks:
+                continue
+            n_s2c += 1
+            g = _conj(t.test)
+            site = f"{fi.file}:{t.lineno} {fi.qualname}"
+            what = f"{fi.qualname}: `if {norm(t.test, 50)}: … Markup(…)` implies the inputs were escaped ({' and '.join(sorted(need))})"
+            if need <= g:
+                res.ok("C04.S2c", site, what, "guard covers the escaping condition")
+            else:
+                res.fail("C04.S2c", file=fi.file, line=t.lineno, qualname=fi.qualname, construct=f"Markup under `{norm(t.test, 40)}` while inputs are escaped under `{' and '.join(sorted(need))}`", message=f"{fi.qualname} escapes its inputs only when `{' and '.join(sorted(need))}` but marks the result safe whenever `{norm(t.test, 40)}`: when {sorted(need - g)} is false, render data passes through unescaped and is then protected from escaping by the Markup wrapper", what=what)
+    res.floor("C04.S2c", "conditional safe-markings next to conditional escaping", n_s2c, 5)
+
     # ------------------------------------------------------------------ S4 the trusted sanitisers' own bodies
     res.rule("C04.S4", "the stringifiers the other rules trust (to_liquid_string, _to_liquid_string): with auto_escape true, every return hands back a value last assigned from escape(...) - no branch returns before the escape")
     from sa.cfg import CFG
